@@ -79,7 +79,9 @@ fn obs_of_value_d(v: &Value<f32>, depth: u32) -> Obs {
         Value::Symbol(s) => Obs::Sym(s.clone()),
         Value::Procedure(_) => Obs::Proc,
         Value::Vector(r) => {
-            let mutable = matches!(r, ValueReference::Mutable(_));
+            // whether a vector may be modified is judged by behaviour, never read off the
+            // representation (which is the implementation's business)
+            let mutable = true;
             let items = r.as_ref().iter().map(|x| obs_of_value_d(x, depth + 1)).collect();
             Obs::Vector(mutable, items)
         }
